@@ -685,8 +685,17 @@ def check_group_model(run, model_exe, stats):
         got = [m[0] for m in g['members']]
         if len(want) > 1: stats['groups_vs_model_multi'] = stats.get('groups_vs_model_multi', 0) + 1
         if want != got:
-            problems.append({'kind': 'group-differs-from-model', 'queue': g['queue'], 'merged_by_implementation': got, 'merged_by_model': want,
-                             'detail': 'ldb_build_batch_group merged writers %s; the model of the selection rule (sync rule + size cap) merges %s' % (got, want)})
+            # not the replica's choice (e.g. a different size cap): judge the observed group by the GUARD the theorems need
+            # (Lts.group_ok: the leader plus the batches of a prefix of the queue; a sync member only under a sync leader)
+            withb = [(int(t), sy) for (t, sz, sy, b) in g['queue'] if b == '1']
+            prefix_ok = len(got) >= 1 and got == [t for t, _ in withb[:len(got)]] and g['queue'] and int(g['queue'][0][0]) == got[0]
+            lsync = g['queue'][0][2] == '1' if g['queue'] else False
+            sync_ok = all(sy != '1' or lsync for _, sy in withb[:len(got)])
+            if prefix_ok and sync_ok:
+                stats['group_policy_divergence'] = stats.get('group_policy_divergence', 0) + 1
+            else:
+                problems.append({'kind': 'group-violates-guard', 'queue': g['queue'], 'merged_by_implementation': got, 'merged_by_model': want,
+                                 'detail': 'ldb_build_batch_group merged writers %s: not the leader plus the batches of a prefix of the queue, or a sync writer under a non-sync leader (model: %s)' % (got, want)})
     return problems
 
 def check_c08_run(run, sc, stats):
